@@ -90,6 +90,7 @@ package sdf
 
 //@ func M44.Inverse
 //@   property C02
+//@   modular
 //@   requires a.Determinant() != 0
 //@   ensures [right-inverse] a.Mul(r) == Identity3d()
 //@   ensures [left-inverse] r.Mul(a) == Identity3d()
@@ -97,6 +98,7 @@ package sdf
 
 //@ func M33.Inverse
 //@   property C02
+//@   modular
 //@   requires a.Determinant() != 0
 //@   ensures [right-inverse] a.Mul(r) == Identity2d()
 //@   ensures [left-inverse] r.Mul(a) == Identity2d()
@@ -104,6 +106,7 @@ package sdf
 
 //@ func M22.Inverse
 //@   property C02
+//@   modular
 //@   requires a.Determinant() != 0
 //@   ensures [right-inverse] a.Mul(r) == Identity()
 //@   ensures [left-inverse] r.Mul(a) == Identity()
@@ -111,18 +114,55 @@ package sdf
 
 //@ func M44.MulBox
 //@   property C01
-//@   forall q v3.Vec
-//@   requires box.Contains(q)
-//@   ensures [image-of-box-point-in-result] r.Contains(a.MulPosition(q))
-//@   ensures [ordered] r.Min.X <= r.Max.X && r.Min.Y <= r.Max.Y && r.Min.Z <= r.Max.Z
+//@   id X
+//@   modular
+//@   cases a[0] >= 0
+//@   cases a[1] >= 0
+//@   cases a[2] >= 0
+//@   ensures [image-of-box-point-in-result] forall q v3.Vec :: box.Contains(q) ==> r.Min.X <= a.MulPosition(q).X && a.MulPosition(q).X <= r.Max.X
+//@   ensures [ordered] ord3(box) ==> r.Min.X <= r.Max.X
+//@ end
+
+//@ func M44.MulBox
+//@   property C01
+//@   id Y
+//@   modular
+//@   cases a[4] >= 0
+//@   cases a[5] >= 0
+//@   cases a[6] >= 0
+//@   ensures [image-of-box-point-in-result] forall q v3.Vec :: box.Contains(q) ==> r.Min.Y <= a.MulPosition(q).Y && a.MulPosition(q).Y <= r.Max.Y
+//@   ensures [ordered] ord3(box) ==> r.Min.Y <= r.Max.Y
+//@ end
+
+//@ func M44.MulBox
+//@   property C01
+//@   id Z
+//@   modular
+//@   cases a[8] >= 0
+//@   cases a[9] >= 0
+//@   cases a[10] >= 0
+//@   ensures [image-of-box-point-in-result] forall q v3.Vec :: box.Contains(q) ==> r.Min.Z <= a.MulPosition(q).Z && a.MulPosition(q).Z <= r.Max.Z
+//@   ensures [ordered] ord3(box) ==> r.Min.Z <= r.Max.Z
 //@ end
 
 //@ func M33.MulBox
 //@   property C01
-//@   forall q v2.Vec
-//@   requires box.Contains(q)
-//@   ensures [image-of-box-point-in-result] r.Contains(a.MulPosition(q))
-//@   ensures [ordered] r.Min.X <= r.Max.X && r.Min.Y <= r.Max.Y
+//@   id X
+//@   modular
+//@   cases a[0] >= 0
+//@   cases a[1] >= 0
+//@   ensures [image-of-box-point-in-result] forall q v2.Vec :: box.Contains(q) ==> r.Min.X <= a.MulPosition(q).X && a.MulPosition(q).X <= r.Max.X
+//@   ensures [ordered] ord2(box) ==> r.Min.X <= r.Max.X
+//@ end
+
+//@ func M33.MulBox
+//@   property C01
+//@   id Y
+//@   modular
+//@   cases a[3] >= 0
+//@   cases a[4] >= 0
+//@   ensures [image-of-box-point-in-result] forall q v2.Vec :: box.Contains(q) ==> r.Min.Y <= a.MulPosition(q).Y && a.MulPosition(q).Y <= r.Max.Y
+//@   ensures [ordered] ord2(box) ==> r.Min.Y <= r.Max.Y
 //@ end
 
 //@ func Rotate3d
@@ -148,3 +188,569 @@ package sdf
 //@   ensures [preserves-length] r.MulPosition(q).Length2() == q.Length2()
 //@   ensures [proper] r.Determinant() == 1
 //@ end
+
+//-----------------------------------------------------------------------------
+// C01: bounding boxes enclose the solid. Vocabulary:
+//   ord2/ord3  - box ordered;  enc2/enc3 - a solid point lies in the box.
+
+//@ spec ord2(b Box2) = b.Min.X <= b.Max.X && b.Min.Y <= b.Max.Y
+//@ spec ord3(b Box3) = b.Min.X <= b.Max.X && b.Min.Y <= b.Max.Y && b.Min.Z <= b.Max.Z
+//@ spec enc2(s SDF2, q v2.Vec) = s.Evaluate(q) < 0 ==> s.BoundingBox().Contains(q)
+//@ spec enc3(s SDF3, q v3.Vec) = s.Evaluate(q) < 0 ==> s.BoundingBox().Contains(q)
+
+//@ spec linfd2(b Box2, q v2.Vec) = max(b.Min.X - q.X, q.X - b.Max.X, b.Min.Y - q.Y, q.Y - b.Max.Y)
+//@ spec linfd3(b Box3, q v3.Vec) = max(b.Min.X - q.X, q.X - b.Max.X, b.Min.Y - q.Y, q.Y - b.Max.Y, b.Min.Z - q.Z, q.Z - b.Max.Z)
+//@ spec linf2(s SDF2, q v2.Vec) = s.Evaluate(q) >= linfd2(s.BoundingBox(), q)
+//@ spec linf3(s SDF3, q v3.Vec) = s.Evaluate(q) >= linfd3(s.BoundingBox(), q)
+
+//@ spec vlen2(x real, y real) = x*x + y*y
+//@ spec boxr2(b Box2) = max(vlen2(b.Min.X, b.Min.Y), vlen2(b.Max.X, b.Min.Y), vlen2(b.Min.X, b.Max.Y), vlen2(b.Max.X, b.Max.Y))
+
+//@ lemma sq_bound(x real, lo real, hi real)
+//@   property C01
+//@   requires lo <= x && x <= hi
+//@   ensures sq(x) <= max(sq(lo), sq(hi))
+//@ end
+
+//@ func TwistExtrude3D
+//@   property C01
+//@   id ENC
+//@   opt search p
+//@   opt solid-operands
+//@   forall p v3.Vec
+//@   requires height > 0
+//@   requires ord2(sdf.BoundingBox())
+//@   requires forall q v2.Vec :: enc2(sdf, q)
+//@   let d = r.Evaluate(p)
+//@   let e = r.extrude(p)
+//@   let bb = r.BoundingBox()
+//@   assert [twist-preserves-radius] e.Length2() == vlen2(p.X, p.Y)
+//@   assert [box-radius] sq(bb.Max.X) == boxr2(sdf.BoundingBox()) && bb.Max.X >= 0
+//@   assert [box-shape] bb.Max.Y == bb.Max.X && bb.Min.X == -bb.Max.X && bb.Min.Y == -bb.Max.X && bb.Max.Z == height/2 && bb.Min.Z == -height/2
+//@   generalize e
+//@   generalize bb
+//@   use sq_bound(e.X, sdf.BoundingBox().Min.X, sdf.BoundingBox().Max.X)
+//@   use sq_bound(e.Y, sdf.BoundingBox().Min.Y, sdf.BoundingBox().Max.Y)
+//@   assert [in-box-in-disc] sdf.BoundingBox().Contains(e) ==> e.Length2() <= boxr2(sdf.BoundingBox())
+//@   ensures [ordered] ord3(bb)
+//@   ensures [encloses] d < 0 ==> bb.Contains(p)
+//@ end
+
+//@ spec sfac(s real, h real, z real) = ((1/s - 1)/h)*z + ((1/s)*0.5 + 0.5)
+
+//@ func ScaleTwistExtrude3D
+//@   property C01
+//@   id ENC
+//@   opt search p
+//@   opt solid-operands
+//@   forall p v3.Vec
+//@   requires height > 0
+//@   requires scale.X > 0 && scale.Y > 0
+//@   requires ord2(sdf.BoundingBox())
+//@   requires forall q v2.Vec :: enc2(sdf, q)
+//@   let d = r.Evaluate(p)
+//@   let e = r.extrude(p)
+//@   let bb = r.BoundingBox()
+//@   assert [twist-preserves-radius] e.Length2() == sq(p.X*sfac(scale.X, height, p.Z)) + sq(p.Y*sfac(scale.Y, height, p.Z))
+//@   assert [box-radius-x] sq(bb.Max.X) == boxr2(sdf.BoundingBox())*sq(max(1, scale.X)) && bb.Max.X >= 0
+//@   assert [box-radius-y] sq(bb.Max.Y) == boxr2(sdf.BoundingBox())*sq(max(1, scale.Y)) && bb.Max.Y >= 0
+//@   assert [box-shape] bb.Min.X == -bb.Max.X && bb.Min.Y == -bb.Max.Y && bb.Max.Z == height/2 && bb.Min.Z == -height/2
+//@   generalize e
+//@   generalize bb
+//@   use sq_bound(e.X, sdf.BoundingBox().Min.X, sdf.BoundingBox().Max.X)
+//@   use sq_bound(e.Y, sdf.BoundingBox().Min.Y, sdf.BoundingBox().Max.Y)
+//@   assert [in-box-in-disc] sdf.BoundingBox().Contains(e) ==> e.Length2() <= boxr2(sdf.BoundingBox())
+//@   assert [factor-x] abs(p.Z) <= height/2 ==> sfac(scale.X, height, p.Z)*max(1, scale.X) >= 1 && sfac(scale.X, height, p.Z) > 0
+//@   assert [factor-y] abs(p.Z) <= height/2 ==> sfac(scale.Y, height, p.Z)*max(1, scale.Y) >= 1 && sfac(scale.Y, height, p.Z) > 0
+//@   assert [x-in] d < 0 ==> sq(p.X) <= sq(bb.Max.X)
+//@   assert [y-in] d < 0 ==> sq(p.Y) <= sq(bb.Max.Y)
+//@   ensures [ordered] ord3(bb)
+//@   ensures [encloses] d < 0 ==> bb.Contains(p)
+//@ end
+
+// BEGIN GENERATED SHAPES
+//-----------------------------------------------------------------------------
+// C01 (generated block list, see /verif/tools/gen_shape_contracts.py): one ENC contract per constructor.
+
+//@ func Sphere3D
+//@   property C01
+//@   id ENC
+//@   opt search p
+//@   opt solid-operands
+//@   forall p v3.Vec
+//@   let d = r.Evaluate(p)
+//@   ensures [ordered] isnil(err) ==> ord3(r.BoundingBox())
+//@   ensures [encloses] isnil(err) && d < 0 ==> r.BoundingBox().Contains(p)
+//@ end
+
+//@ func Box3D
+//@   property C01
+//@   id ENC
+//@   opt search p
+//@   opt solid-operands
+//@   forall p v3.Vec
+//@   let d = r.Evaluate(p)
+//@   ensures [ordered] isnil(err) ==> ord3(r.BoundingBox())
+//@   ensures [encloses] isnil(err) && d < 0 ==> r.BoundingBox().Contains(p)
+//@ end
+
+//@ func Cylinder3D
+//@   property C01
+//@   id ENC
+//@   opt search p
+//@   opt solid-operands
+//@   forall p v3.Vec
+//@   let d = r.Evaluate(p)
+//@   ensures [ordered] isnil(err) ==> ord3(r.BoundingBox())
+//@   ensures [encloses] isnil(err) && d < 0 ==> r.BoundingBox().Contains(p)
+//@ end
+
+//@ func Capsule3D
+//@   property C01
+//@   id ENC
+//@   opt search p
+//@   opt solid-operands
+//@   forall p v3.Vec
+//@   let d = r.Evaluate(p)
+//@   ensures [ordered] isnil(err) ==> ord3(r.BoundingBox())
+//@   ensures [encloses] isnil(err) && d < 0 ==> r.BoundingBox().Contains(p)
+//@ end
+
+//@ func Cone3D
+//@   property C01
+//@   id ENC
+//@   opt search p
+//@   opt solid-operands
+//@   opt thorough
+//@   forall p v3.Vec
+//@   requires r0 >= 0
+//@   requires r1 >= 0
+//@   requires r0 > 0 || r1 > 0
+//@   let d = r.Evaluate(p)
+//@   ensures [ordered] isnil(err) ==> ord3(r.BoundingBox())
+//@   ensures [encloses] isnil(err) && d < 0 ==> r.BoundingBox().Contains(p)
+//@ end
+
+//@ func Extrude3D
+//@   property C01
+//@   id ENC
+//@   opt search p
+//@   opt solid-operands
+//@   forall p v3.Vec
+//@   requires height > 0
+//@   requires ord2(sdf.BoundingBox())
+//@   requires forall q v2.Vec :: enc2(sdf, q)
+//@   let d = r.Evaluate(p)
+//@   ensures [ordered] ord3(r.BoundingBox())
+//@   ensures [encloses] d < 0 ==> r.BoundingBox().Contains(p)
+//@ end
+
+//@ func ScaleExtrude3D
+//@   property C01
+//@   id ENC
+//@   opt search p
+//@   opt solid-operands
+//@   forall p v3.Vec
+//@   requires height > 0
+//@   requires scale.X > 0
+//@   requires scale.Y > 0
+//@   requires ord2(sdf.BoundingBox())
+//@   requires forall q v2.Vec :: enc2(sdf, q)
+//@   let d = r.Evaluate(p)
+//@   ensures [ordered] ord3(r.BoundingBox())
+//@   ensures [encloses] d < 0 ==> r.BoundingBox().Contains(p)
+//@ end
+
+//@ func ExtrudeRounded3D
+//@   property C01
+//@   id ENC
+//@   opt search p
+//@   opt solid-operands
+//@   forall p v3.Vec
+//@   requires height > 0
+//@   requires ord2(sdf.BoundingBox())
+//@   requires forall q v2.Vec :: enc2(sdf, q)
+//@   requires forall q v2.Vec :: linf2(sdf, q)
+//@   let d = r.Evaluate(p)
+//@   ensures [ordered] isnil(err) ==> ord3(r.BoundingBox())
+//@   ensures [encloses] isnil(err) && d < 0 ==> r.BoundingBox().Contains(p)
+//@ end
+
+//@ func Loft3D
+//@   property C01
+//@   id ENC
+//@   opt search p
+//@   opt solid-operands
+//@   forall p v3.Vec
+//@   requires ord2(sdf0.BoundingBox())
+//@   requires forall q v2.Vec :: enc2(sdf0, q)
+//@   requires forall q v2.Vec :: linf2(sdf0, q)
+//@   requires ord2(sdf1.BoundingBox())
+//@   requires forall q v2.Vec :: enc2(sdf1, q)
+//@   requires forall q v2.Vec :: linf2(sdf1, q)
+//@   let d = r.Evaluate(p)
+//@   ensures [ordered] isnil(err) ==> ord3(r.BoundingBox())
+//@   ensures [encloses] isnil(err) && d < 0 ==> r.BoundingBox().Contains(p)
+//@ end
+
+//@ func RevolveTheta3D
+//@   property C01
+//@   id ENC
+//@   opt search p
+//@   opt solid-operands
+//@   opt trig-quadrants
+//@   forall p v3.Vec
+//@   requires ord2(sdf.BoundingBox())
+//@   requires forall q v2.Vec :: enc2(sdf, q)
+//@   let d = r.Evaluate(p)
+//@   ensures [ordered] isnil(err) ==> ord3(r.BoundingBox())
+//@   ensures [encloses] isnil(err) && d < 0 ==> r.BoundingBox().Contains(p)
+//@ end
+
+//@ func Revolve3D
+//@   property C01
+//@   id ENC
+//@   opt search p
+//@   opt solid-operands
+//@   opt trig-quadrants
+//@   forall p v3.Vec
+//@   requires ord2(sdf.BoundingBox())
+//@   requires forall q v2.Vec :: enc2(sdf, q)
+//@   let d = r.Evaluate(p)
+//@   ensures [ordered] isnil(err) ==> ord3(r.BoundingBox())
+//@   ensures [encloses] isnil(err) && d < 0 ==> r.BoundingBox().Contains(p)
+//@ end
+
+//@ func Transform3D
+//@   property C01
+//@   id ENC
+//@   opt search p
+//@   opt solid-operands
+//@   forall p v3.Vec
+//@   requires matrix.Determinant() != 0
+//@   requires matrix[12] == 0 && matrix[13] == 0 && matrix[14] == 0 && matrix[15] == 1
+//@   requires ord3(sdf.BoundingBox())
+//@   requires forall q v3.Vec :: enc3(sdf, q)
+//@   let d = r.Evaluate(p)
+//@   let q = r.inverse.MulPosition(p)
+//@   assert [inverse-maps-back] matrix.MulPosition(q) == p
+//@   generalize q
+//@   ensures [ordered] ord3(r.BoundingBox())
+//@   ensures [encloses] d < 0 ==> r.BoundingBox().Contains(p)
+//@ end
+
+//@ func ScaleUniform3D
+//@   property C01
+//@   id ENC
+//@   opt search p
+//@   opt solid-operands
+//@   forall p v3.Vec
+//@   requires k > 0
+//@   requires ord3(sdf.BoundingBox())
+//@   requires forall q v3.Vec :: enc3(sdf, q)
+//@   let d = r.Evaluate(p)
+//@   ensures [ordered] ord3(r.BoundingBox())
+//@   ensures [encloses] d < 0 ==> r.BoundingBox().Contains(p)
+//@ end
+
+//@ func Difference3D
+//@   property C01
+//@   id ENC
+//@   opt search p
+//@   opt solid-operands
+//@   forall p v3.Vec
+//@   requires ord3(s0.BoundingBox())
+//@   requires forall q v3.Vec :: enc3(s0, q)
+//@   requires ord3(s1.BoundingBox())
+//@   requires forall q v3.Vec :: enc3(s1, q)
+//@   let d = r.Evaluate(p)
+//@   ensures [ordered] ord3(r.BoundingBox())
+//@   ensures [encloses] d < 0 ==> r.BoundingBox().Contains(p)
+//@ end
+
+//@ func Intersect3D
+//@   property C01
+//@   id ENC
+//@   opt search p
+//@   opt solid-operands
+//@   forall p v3.Vec
+//@   requires ord3(s0.BoundingBox())
+//@   requires forall q v3.Vec :: enc3(s0, q)
+//@   requires ord3(s1.BoundingBox())
+//@   requires forall q v3.Vec :: enc3(s1, q)
+//@   let d = r.Evaluate(p)
+//@   ensures [ordered] ord3(r.BoundingBox())
+//@   ensures [encloses] d < 0 ==> r.BoundingBox().Contains(p)
+//@ end
+
+//@ func Cut3D
+//@   property C01
+//@   id ENC
+//@   opt search p
+//@   opt solid-operands
+//@   forall p v3.Vec
+//@   requires n.X*n.X + n.Y*n.Y + n.Z*n.Z > 0
+//@   requires ord3(sdf.BoundingBox())
+//@   requires forall q v3.Vec :: enc3(sdf, q)
+//@   let d = r.Evaluate(p)
+//@   ensures [ordered] ord3(r.BoundingBox())
+//@   ensures [encloses] d < 0 ==> r.BoundingBox().Contains(p)
+//@ end
+
+//@ func Elongate3D
+//@   property C01
+//@   id ENC
+//@   opt search p
+//@   opt solid-operands
+//@   forall p v3.Vec
+//@   requires ord3(sdf.BoundingBox())
+//@   requires forall q v3.Vec :: enc3(sdf, q)
+//@   let d = r.Evaluate(p)
+//@   ensures [ordered] ord3(r.BoundingBox())
+//@   ensures [encloses] d < 0 ==> r.BoundingBox().Contains(p)
+//@ end
+
+//@ func Shell3D
+//@   property C01
+//@   id ENC
+//@   opt search p
+//@   opt solid-operands
+//@   forall p v3.Vec
+//@   requires ord3(sdf.BoundingBox())
+//@   requires forall q v3.Vec :: enc3(sdf, q)
+//@   requires forall q v3.Vec :: linf3(sdf, q)
+//@   let d = r.Evaluate(p)
+//@   ensures [ordered] isnil(err) ==> ord3(r.BoundingBox())
+//@   ensures [encloses] isnil(err) && d < 0 ==> r.BoundingBox().Contains(p)
+//@ end
+
+//@ func Offset3D
+//@   property C01
+//@   id ENC
+//@   opt search p
+//@   opt solid-operands
+//@   forall p v3.Vec
+//@   requires sdf.BoundingBox().Size().X + 2*offset >= 0
+//@   requires sdf.BoundingBox().Size().Y + 2*offset >= 0
+//@   requires sdf.BoundingBox().Size().Z + 2*offset >= 0
+//@   requires ord3(sdf.BoundingBox())
+//@   requires forall q v3.Vec :: enc3(sdf, q)
+//@   requires forall q v3.Vec :: linf3(sdf, q)
+//@   let d = r.Evaluate(p)
+//@   ensures [ordered] ord3(r.BoundingBox())
+//@   ensures [encloses] d < 0 ==> r.BoundingBox().Contains(p)
+//@ end
+
+//@ func RotateCopy3D
+//@   property C01
+//@   id ENC
+//@   opt search p
+//@   opt solid-operands
+//@   forall p v3.Vec
+//@   requires num > 0
+//@   requires ord3(sdf.BoundingBox())
+//@   requires forall q v3.Vec :: enc3(sdf, q)
+//@   let d = r.Evaluate(p)
+//@   ensures [ordered] ord3(r.BoundingBox())
+//@   ensures [encloses] d < 0 ==> r.BoundingBox().Contains(p)
+//@ end
+
+//@ func Circle2D
+//@   property C01
+//@   id ENC
+//@   opt search p
+//@   opt solid-operands
+//@   forall p v2.Vec
+//@   let d = r.Evaluate(p)
+//@   ensures [ordered] isnil(err) ==> ord2(r.BoundingBox())
+//@   ensures [encloses] isnil(err) && d < 0 ==> r.BoundingBox().Contains(p)
+//@ end
+
+//@ func Box2D
+//@   property C01
+//@   id ENC
+//@   opt search p
+//@   opt solid-operands
+//@   forall p v2.Vec
+//@   requires size.X > 0 && size.Y > 0
+//@   requires round >= 0
+//@   requires 2*round <= size.X && 2*round <= size.Y
+//@   let d = r.Evaluate(p)
+//@   ensures [ordered] ord2(r.BoundingBox())
+//@   ensures [encloses] d < 0 ==> r.BoundingBox().Contains(p)
+//@ end
+
+//@ func Line2D
+//@   property C01
+//@   id ENC
+//@   opt search p
+//@   opt solid-operands
+//@   forall p v2.Vec
+//@   requires l >= 0
+//@   requires round >= 0
+//@   let d = r.Evaluate(p)
+//@   ensures [ordered] ord2(r.BoundingBox())
+//@   ensures [encloses] d < 0 ==> r.BoundingBox().Contains(p)
+//@ end
+
+//@ func Offset2D
+//@   property C01
+//@   id ENC
+//@   opt search p
+//@   opt solid-operands
+//@   forall p v2.Vec
+//@   requires sdf.BoundingBox().Size().X + 2*offset >= 0
+//@   requires sdf.BoundingBox().Size().Y + 2*offset >= 0
+//@   requires ord2(sdf.BoundingBox())
+//@   requires forall q v2.Vec :: enc2(sdf, q)
+//@   requires forall q v2.Vec :: linf2(sdf, q)
+//@   let d = r.Evaluate(p)
+//@   ensures [ordered] ord2(r.BoundingBox())
+//@   ensures [encloses] d < 0 ==> r.BoundingBox().Contains(p)
+//@ end
+
+//@ func Intersect2D
+//@   property C01
+//@   id ENC
+//@   opt search p
+//@   opt solid-operands
+//@   forall p v2.Vec
+//@   requires ord2(s0.BoundingBox())
+//@   requires forall q v2.Vec :: enc2(s0, q)
+//@   requires ord2(s1.BoundingBox())
+//@   requires forall q v2.Vec :: enc2(s1, q)
+//@   let d = r.Evaluate(p)
+//@   ensures [ordered] ord2(r.BoundingBox())
+//@   ensures [encloses] d < 0 ==> r.BoundingBox().Contains(p)
+//@ end
+
+//@ func Difference2D
+//@   property C01
+//@   id ENC
+//@   opt search p
+//@   opt solid-operands
+//@   forall p v2.Vec
+//@   requires ord2(s0.BoundingBox())
+//@   requires forall q v2.Vec :: enc2(s0, q)
+//@   requires ord2(s1.BoundingBox())
+//@   requires forall q v2.Vec :: enc2(s1, q)
+//@   let d = r.Evaluate(p)
+//@   ensures [ordered] ord2(r.BoundingBox())
+//@   ensures [encloses] d < 0 ==> r.BoundingBox().Contains(p)
+//@ end
+
+//@ func Cut2D
+//@   property C01
+//@   id ENC
+//@   opt search p
+//@   opt solid-operands
+//@   forall p v2.Vec
+//@   requires v.X*v.X + v.Y*v.Y > 0
+//@   requires ord2(sdf.BoundingBox())
+//@   requires forall q v2.Vec :: enc2(sdf, q)
+//@   let d = r.Evaluate(p)
+//@   ensures [ordered] ord2(r.BoundingBox())
+//@   ensures [encloses] d < 0 ==> r.BoundingBox().Contains(p)
+//@ end
+
+//@ func Transform2D
+//@   property C01
+//@   id ENC
+//@   opt search p
+//@   opt solid-operands
+//@   forall p v2.Vec
+//@   requires m.Determinant() != 0
+//@   requires m[6] == 0 && m[7] == 0 && m[8] == 1
+//@   requires ord2(sdf.BoundingBox())
+//@   requires forall q v2.Vec :: enc2(sdf, q)
+//@   let d = r.Evaluate(p)
+//@   let q = r.mInv.MulPosition(p)
+//@   assert [inverse-maps-back] m.MulPosition(q) == p
+//@   generalize q
+//@   ensures [ordered] ord2(r.BoundingBox())
+//@   ensures [encloses] d < 0 ==> r.BoundingBox().Contains(p)
+//@ end
+
+//@ func ScaleUniform2D
+//@   property C01
+//@   id ENC
+//@   opt search p
+//@   opt solid-operands
+//@   forall p v2.Vec
+//@   requires k > 0
+//@   requires ord2(sdf.BoundingBox())
+//@   requires forall q v2.Vec :: enc2(sdf, q)
+//@   let d = r.Evaluate(p)
+//@   ensures [ordered] ord2(r.BoundingBox())
+//@   ensures [encloses] d < 0 ==> r.BoundingBox().Contains(p)
+//@ end
+
+//@ func Center2D
+//@   property C01
+//@   id ENC
+//@   opt search p
+//@   opt solid-operands
+//@   forall p v2.Vec
+//@   requires ord2(s.BoundingBox())
+//@   requires forall q v2.Vec :: enc2(s, q)
+//@   let d = r.Evaluate(p)
+//@   ensures [ordered] ord2(r.BoundingBox())
+//@   ensures [encloses] d < 0 ==> r.BoundingBox().Contains(p)
+//@ end
+
+//@ func CenterAndScale2D
+//@   property C01
+//@   id ENC
+//@   opt search p
+//@   opt solid-operands
+//@   forall p v2.Vec
+//@   requires k > 0
+//@   requires ord2(s.BoundingBox())
+//@   requires forall q v2.Vec :: enc2(s, q)
+//@   let d = r.Evaluate(p)
+//@   ensures [ordered] ord2(r.BoundingBox())
+//@   ensures [encloses] d < 0 ==> r.BoundingBox().Contains(p)
+//@ end
+
+//@ func Elongate2D
+//@   property C01
+//@   id ENC
+//@   opt search p
+//@   opt solid-operands
+//@   forall p v2.Vec
+//@   requires ord2(sdf.BoundingBox())
+//@   requires forall q v2.Vec :: enc2(sdf, q)
+//@   let d = r.Evaluate(p)
+//@   ensures [ordered] ord2(r.BoundingBox())
+//@   ensures [encloses] d < 0 ==> r.BoundingBox().Contains(p)
+//@ end
+
+//@ func RotateCopy2D
+//@   property C01
+//@   id ENC
+//@   opt search p
+//@   opt solid-operands
+//@   forall p v2.Vec
+//@   requires n > 0
+//@   requires ord2(sdf.BoundingBox())
+//@   requires forall q v2.Vec :: enc2(sdf, q)
+//@   let d = r.Evaluate(p)
+//@   ensures [ordered] ord2(r.BoundingBox())
+//@   ensures [encloses] d < 0 ==> r.BoundingBox().Contains(p)
+//@ end
+
+//@ func Slice2D
+//@   property C01
+//@   id ENC
+//@   opt search p
+//@   opt solid-operands
+//@   forall p v2.Vec
+//@   requires n.X*n.X + n.Y*n.Y + n.Z*n.Z > 0
+//@   requires ord3(sdf.BoundingBox())
+//@   requires forall q v3.Vec :: enc3(sdf, q)
+//@   let d = r.Evaluate(p)
+//@   ensures [ordered] ord2(r.BoundingBox())
+//@   ensures [encloses] d < 0 ==> r.BoundingBox().Contains(p)
+//@ end
+
+// END GENERATED SHAPES
